@@ -139,6 +139,10 @@ fn main() {
                     Err(pn) => Err(Fail { check: ck.clone(), site: "panic-in-replay".into(), msg: pn, case: v["case"].clone() }),
                 };
                 if let Err(f) = r {
+                    if f.site == "replay-parse" {
+                        out(&format!("INCONCLUSIVE regression file {} does not hold a case this harness can replay: {}", p.display(), truncate(&f.msg, 200)));
+                        std::process::exit(2);
+                    }
                     rep.add_violation(f);
                 }
             }
@@ -188,6 +192,10 @@ fn main() {
                 Ok(()) => {
                     out(&format!("REPLAY-OK property={} check={} (the recorded case passes on this tree)", id, ck));
                     std::process::exit(0);
+                }
+                Err(f) if f.site == "replay-parse" => {
+                    out(&format!("INCONCLUSIVE {} does not hold a case this harness can replay: {}", args[2], truncate(&f.msg, 300)));
+                    std::process::exit(2);
                 }
                 Err(f) => {
                     out(&format!("  what: [{}] {} -- {}", f.check, f.site, truncate(&f.msg, 600)));
